@@ -69,6 +69,7 @@ def main():
 
     LIMIT = 150
     limited = set()         # job numbers run under DATABYTES = LIMIT
+    shortw = {}             # job number -> (k, what): the daemon's k-th call is cut short / fails
 
     def session(job):
         idx, stream, cap = job
@@ -76,6 +77,8 @@ def main():
         env.update(qq.env("s%d" % idx))
         if idx in limited:
             env["DATABYTES"] = str(LIMIT)
+        if idx in shortw:
+            env.update({"VERIF_TRACE": ck.scratch.path("sw.trace"), "VERIF_FAULT": "%d:%s" % shortw[idx], "VERIF_FAULT_PROG": "qmail-smtpd"})
         if cap:
             env["VERIF_READCAP"] = str(cap)
         out, rc, to = sessions.run_daemon([tree.bin("qmail-smtpd")], PRE + bytes(stream), env, cwd=tree.root)
@@ -125,6 +128,16 @@ def main():
             s += [13, 10, 46, 13, 10] + rng.choice([[], [78, 79, 79, 80, 13, 10]])
             jobs.append((s, rng.choice([0, 0, 7])))
             limited.add(len(jobs))
+        # a long stream with each call of the daemon in turn accepting only part of what it is given (a short write to the queue
+        # program, a short read from the network): what is stored is still exactly what was sent
+        big = []
+        for i in range(160):
+            big += list(b"line %03d of a long message, dots: . .. ...\r\n" % i) + ([46, 46, 120, 13, 10] if i % 7 == 0 else [])
+        big += [46, 13, 10]
+        for k in range(4, 60 if not thorough else 90):
+            for what in ("short1", "short700"):
+                jobs.append((big, 0))
+                shortw[len(jobs)] = (k, what)
         jobs = [(i + 1, s, c) for i, (s, c) in enumerate(jobs)]
 
     # ---- round trip through this package's own client: messages (lines over the alphabet, bare CRs
@@ -157,9 +170,10 @@ def main():
         reps = sessions.smtp_replies(out)
         codes = [c for c, _ in reps]
         if codes[:5] != [220, 250, 250, 250, 354]:
-            if not cap:
+            if not cap and idx not in shortw:
                 raise Infra("session preamble failed: %r" % out[:300])
-            # the same four commands are accepted when they arrive in one read: under a read cap they were not recognised
+            # the same four commands are accepted when they arrive in one read and every write is taken whole: under a read cap
+            # (or with one call cut short) they were not recognised / not answered properly
             recs.append({"s": stream, "cap": cap, "res": "pre", "msg": [], "q": 0, "nlf": -1, "rc": rc, "orig": [-1], "lim": 0, "aft": [-1]})
             continue
         after = codes[5:]
